@@ -58,6 +58,24 @@ CHECKS = {
          "fresh symbolic matrix; Gaussianity of the draw and sklearn's rounding near ties are outside",
     technique="symbolic execution of the real numpy code on z3 reals + SMT (QF_NRA) per path",
     design_ref="DESIGN.md §3 C20"),
+ "C10": dict(
+    text="Two-stage bounded symbolic model checking of the real is_covered code (rectangles: LP; ellipsoids: SOCP) on an "
+         "exact-answer cvxpy stub: on every path the program VOPy built is proved (z3, witness instantiation, QF) feasible "
+         "exactly when the oracle's ∃∃ statement holds and the status is mapped to the right boolean; refutations are "
+         "sharpened by Farkas certificates (exact disagreement query) and replayed on the real code with real cvxpy.",
+    note=REAL + "m<=3, K<=6, cone set as C09; cvxpy replaced by a contract stub (exact statuses; *_inaccurate/SCS fallback "
+         "outside); ellipsoid shapes via T=Σ^(-1/2), radii>0",
+    technique="symbolic execution of the real numpy/cvxpy-building code + SMT (QF_LRA/QF_NRA), Farkas certificates",
+    design_ref="DESIGN.md §3 C10"),
+ "C19": dict(
+    text="Bounded symbolic model checking of the real get_smallmij/get_delta/utils.is_covered/ε-F1 code on symbolic value "
+         "vectors: m(i,j) and the gaps are proved equal to the definition (closed form with each facet's own α_n, and the "
+         "semantic statement over every unit cone direction), ε-coverage to its ∃-definition through the cvxpy stub, and the "
+         "ε-F1 laws (range, =1 on the true Pareto set, permutation invariance, monotone in ε) as relational obligations.",
+    note=REAL + "N<=3 vectors, m=2 (3 for m(i,j)); α taken from VOPy's own get_alpha_vec (its optimality is C17) with "
+         "relative tolerance 1e-6; hypervolume clause not encodable (botorch tensors)",
+    technique="symbolic execution of the real numpy code on z3 reals + SMT (QF_NRA) per path",
+    design_ref="DESIGN.md §3 C19"),
 }
 
 _WIP = "check not built yet (work in progress; will be claimed once its harness exists)"
